@@ -33,7 +33,7 @@ open C26Driver
 
 /-- `(dfa enrich prog inputs)` → `(ok bodyDefines bodyUses tree)` or `(error attributeerror)` -/
 def step : Sexp → Option Sexp
-  | list [atom "dfa", e, prog, _] => do
+  | list (atom "dfa" :: e :: prog :: _) => do
       let enr ← decBool e
       let p ← decProgram prog
       let u ← findUnit p p.main
